@@ -867,6 +867,34 @@ func (e *CEnv) call(n *ECall) Val {
 				fs = append(fs, ft)
 			}
 			return Val{T: t, Tm: c.Construct(dt, fs...)}
+		case "mode": // mode(n): the state of terminal mode n after the tokens emitted so far (0 reset, 1 set; a depth for stack modes)
+			v := e.eval(n.Args[0])
+			return Val{T: tInt, Tm: c.Select(e.ex.heapGet(e.st, e.ex.modesKey()), v.Tm)}
+		case "seqkind", "seqlead", "seqfinal", "seqn", "seqparam":
+			// structure of a string that is one escape sequence: kind (1 CSI, 2 SS3, 3 ESC x, 0 other), private marker,
+			// final byte, number of parameters, i-th parameter -- known for literals and for Sprintf on constant templates
+			e.ex.W.seqUsed = true
+			v := e.eval(n.Args[0])
+			w := e.ex.W
+			w.seqFacts(v.Tm, seqShape{}, nil) // declares the functions
+			name := map[string]string{"seqkind": "sq_kind", "seqlead": "sq_lead", "seqfinal": "sq_final", "seqn": "sq_n", "seqparam": "sq_p"}[id.Name]
+			if id.Name == "seqparam" {
+				i := e.eval(n.Args[1])
+				return Val{T: tInt, Tm: c.App(name, smt.Int, v.Tm, i.Tm)}
+			}
+			return Val{T: tInt, Tm: c.App(name, smt.Int, v.Tm)}
+		case "modeskept": // modeskept(n1, n2, ...): every terminal mode other than the listed ones is as it was on entry (quantifier-free)
+			k := e.ex.modesKey()
+			cur := e.ex.heapGet(e.st, k)
+			was := cur
+			if e.old != nil {
+				was = e.ex.heapGet(e.old, k)
+			}
+			for _, a := range n.Args {
+				v := e.eval(a)
+				was = c.Store(was, v.Tm, c.Select(cur, v.Tm))
+			}
+			return Val{T: tBool, Tm: c.Eq(cur, was)}
 		case "pen": // pen(): the rendition and hyperlink a terminal has after the tokens emitted so far
 			k := e.ex.penKey()
 			return Val{T: e.ex.styleType(), Tm: e.ex.heapGet(e.st, k)}
